@@ -371,11 +371,11 @@ prop("C16", level="model_checking", engine="vgraph",
 prop("C18", level="exploration", engine="vgraph",
      technique="exhaustive enumeration of all permutations of named arguments / #[logos] items; real generate() output compared with the canonical order",
      text="All permutations of every subset of named arguments for #[token], #[regex], skip(...), and all dependency-respecting permutations of up to 5 items of a combined #[logos(...)] attribute produce the same token stream as the canonical order.",
-     note="Equality of generate()'s token string is stronger than lexer equivalence; at most one skip per combined attribute (two skips renumber leaves).", design_ref="5 C18", steps=[step_vgraph("c18")], assumptions=[])
+     note="Equality of generate()'s token string is stronger than lexer equivalence; at most one skip per combined attribute (two skips renumber leaves).", design_ref="5 C18", steps=[step_vgraph("c18"), step_vgraph("c19seq")], assumptions=[])
 prop("C19", level="exploration", engine="vgraph",
      technique="exhaustive enumeration of an attribute grammar (all single items and all pairs) through catch_unwind(generate) and (single items + same-key pairs) through rustc with the real proc-macro; must-reject predicates from the reference",
      text="Every single item and every pair of items of the attribute grammar is run through the library entry point: no panic, and every definition carrying a must-reject predicate (nullable, start look-behind, unsupported feature, greedy dot anywhere, undefined subpattern, bad variant shape) yields compile_error!.",
-     note="Two execution paths: the library entry point under catch_unwind, and rustc on the stable toolchain with the real proc-macro (span operations differ there).", design_ref="5 C19", steps=[step_vgraph("c19"), step_vgraph("c13cb"), step_vgraph("c19big"), step_layer1, step_probe, step_names], assumptions=["the derive cannot type-check user-supplied fragments; rustc errors inside those are not counted"])
+     note="Two execution paths: the library entry point under catch_unwind, and rustc on the stable toolchain with the real proc-macro (span operations differ there).", design_ref="5 C19", steps=[step_vgraph("c19"), step_vgraph("c19seq"), step_vgraph("c13cb"), step_vgraph("c19big"), step_layer1, step_probe, step_names], assumptions=["the derive cannot type-check user-supplied fragments; rustc errors inside those are not counted"])
 
 L2_ASSUME = L1_ASSUME + ["Layer 2 compiles the library expansion (logos_codegen::generate) of a compiled sub-corpus; the proc-macro wrapper is a one-line call of the same function (bound by vderive)",
                          "inputs at Layer 2 are bounded: all strings up to L symbols over a representative alphabet + transition cover x 256 + loop inputs"]
